@@ -141,6 +141,8 @@ fn hash_str(s: &str) -> u64 {
 }
 
 struct Job {
+    /// Re-run the parent only to regenerate its trace, then run its last-level children inline.
+    expand: bool,
     level: u32,
     scn: usize,
     seed: u64,
@@ -351,6 +353,25 @@ fn worker(sh: Arc<Shared>) {
         if over(&sh) {
             sh.capped.store(true, Ordering::Relaxed);
             sh.skipped_min.fetch_min(job.level, Ordering::Relaxed);
+        } else if job.expand {
+            // Strict breadth-first order: the last level is expanded only after all shallower jobs ran.
+            let (out, _) = execute(&*sh.scns[job.scn], &job.devs, job.seed);
+            let cost = dev_cost(&job.devs);
+            let left = sh.params.max_dev.saturating_sub(cost);
+            let mut kids = Vec::new();
+            children(&job.devs, &out.trace, &sh.params, left, &mut kids);
+            kids.retain(|k| dev_cost(k) <= sh.params.max_dev);
+            for k in kids {
+                if sh.stop.load(Ordering::Relaxed) {
+                    break;
+                }
+                if over(&sh) {
+                    sh.capped.store(true, Ordering::Relaxed);
+                    sh.skipped_min.fetch_min(dev_cost(&k), Ordering::Relaxed);
+                    break;
+                }
+                run_one(&sh, job.scn, job.seed, &k, &mut local);
+            }
         } else if let Some(trace) = run_one(&sh, job.scn, job.seed, &job.devs, &mut local) {
             let cost = dev_cost(&job.devs);
             let left = sh.params.max_dev.saturating_sub(cost);
@@ -358,27 +379,18 @@ fn worker(sh: Arc<Shared>) {
             children(&job.devs, &trace, &sh.params, left, &mut kids);
             // Keep only kids within the bound (a combined step may cost 2).
             kids.retain(|k| dev_cost(k) <= sh.params.max_dev);
-            let inline = kids.iter().all(|k| dev_cost(k) >= sh.params.max_dev);
-            if inline {
-                // Last level: run children directly without queueing.
-                for k in kids {
-                    if sh.stop.load(Ordering::Relaxed) {
-                        break;
-                    }
-                    if over(&sh) {
-                        sh.capped.store(true, Ordering::Relaxed);
-                        sh.skipped_min.fetch_min(dev_cost(&k), Ordering::Relaxed);
-                        break;
-                    }
-                    // Children at max cost may still have a same-step preempt child (cost+1 > bound): none.
-                    run_one(&sh, job.scn, job.seed, &k, &mut local);
-                }
-            } else {
+            if !kids.is_empty() {
+                let last_level = kids.iter().all(|k| dev_cost(k) >= sh.params.max_dev);
                 let mut q = sh.queue.lock().unwrap();
-                for k in kids {
-                    let level = dev_cost(&k);
+                if last_level {
                     let order = sh.order.fetch_add(1, Ordering::Relaxed);
-                    q.0.push(Job { level, scn: job.scn, seed: job.seed, devs: k, order });
+                    q.0.push(Job { expand: true, level: sh.params.max_dev, scn: job.scn, seed: job.seed, devs: job.devs.clone(), order });
+                } else {
+                    for k in kids {
+                        let level = dev_cost(&k);
+                        let order = sh.order.fetch_add(1, Ordering::Relaxed);
+                        q.0.push(Job { expand: false, level, scn: job.scn, seed: job.seed, devs: k, order });
+                    }
                 }
                 sh.cv.notify_all();
             }
@@ -414,7 +426,7 @@ pub fn explore(prop: &str, scns: Vec<Arc<dyn Scenario>>, params: Params, known: 
         for scn in 0..n_scn {
             for seed in &params.seeds {
                 let order = sh.order.fetch_add(1, Ordering::Relaxed);
-                q.0.push(Job { level: 0, scn, seed: *seed, devs: Vec::new(), order });
+                q.0.push(Job { expand: false, level: 0, scn, seed: *seed, devs: Vec::new(), order });
             }
         }
     }
